@@ -166,6 +166,25 @@ MUTANTS = [
      """            for field in data_type.all_fields:
                 self._find_dependencies_recursive(field, seen, output_types, output_routes,
                                                   type_context=data_type)"""),
+    ('c12-year-in-header', 'C12', 'stone/backends/python_client.py',
+     """            self.emit_raw(base)""",
+     """            self.emit_raw(base)
+            import datetime
+            self.emit('# (c) {} generated by Stone'.format(datetime.date.today().year))"""),
+    ('c12-js-header-cwd', 'C12', 'stone/backends/js_client.py',
+     """_header = \"\"\"\\
+// Auto-generated by Stone, do not modify.
+""",
+     """import os as _os
+_header = \"\"\"\\
+// Auto-generated by Stone in %s, do not modify.
+\"\"\" % _os.path.basename(_os.getcwd()) + \"\"\"\\
+"""),
+    ('c12-user-in-module', 'C12', 'stone/backends/python_types.py',
+     """        self.emit_raw(validators_import)""",
+     """        self.emit_raw(validators_import)
+        import os as _os
+        self.emit('# user: {}'.format(_os.environ.get('USER', '')))"""),
     # ---- C06 ------------------------------------------------------------------------
     ('c06-struct-no-dict-check', 'C06', 'stone/backends/python_rsrc/stone_serializers.py',
      """        elif not isinstance(obj, dict):
